@@ -635,6 +635,12 @@ class Interp:
         if op == "%" and is_const(a) and isinstance(a[2], str) and a[2].count("%") == 1 and "%s" in a[2] and b[0] not in ("tuple", "dict"):
             pre, _, post = a[2].partition("%s")
             return self.concat([const(pre), b, const(post)])
+        if op == "%" and is_const(a) and isinstance(a[2], str) and b[0] == "tuple":
+            # "...%s...%d..." % (x, y): a concatenation when every directive is a plain %s / %d / %%
+            pieces = _percent_pieces(a[2])
+            if pieces is not None and sum(1 for k, _ in pieces if k == "slot") == len(b[1]):
+                vals = iter(b[1])
+                return self.concat([const(txt) if k == "text" else _as_text(next(vals)) for k, txt in pieces])
         if op == "-" and is_const(a) and is_const(b) and isinstance(a[2], int) and isinstance(b[2], int):
             return const(a[2] - b[2])
         return ("binop", op, a, b)
@@ -647,7 +653,7 @@ class Interp:
                 if is_const(q) and isinstance(q[2], str):
                     if q[2] == "":
                         continue
-                    if flat and is_const(flat[-1]):
+                    if flat and is_const(flat[-1]) and isinstance(flat[-1][2], str):
                         flat[-1] = const(flat[-1][2] + q[2])
                         continue
                 flat.append(q)
@@ -727,7 +733,7 @@ class Interp:
                 if isinstance(v, ast.FormattedValue):
                     x = self.ev(v.value)
                     if v.conversion != -1 or v.format_spec is not None:
-                        x = ("fmt", x, v.conversion, ast.unparse(v.format_spec) if v.format_spec is not None else "")
+                        x = ("fmt", x, v.conversion, _spec_text(v.format_spec))
                     parts.append(x)
                 else:
                     parts.append(self.ev(v))
@@ -818,6 +824,19 @@ class Interp:
                 if self.truth(self.cmp("eq", args[0], k)):
                     return v
             return args[1] if len(args) == 2 else NONE
+        # "{}...{}".format(x, y) with plain auto-numbered slots, and "sep".join([x, y]) over a literal sequence
+        if f[0] == "attr" and f[2] == "format" and is_const(f[1]) and isinstance(f[1][2], str) and len(args) > 1 and not kws:
+            chunks = f[1][2].split("{}")
+            if len(chunks) == len(args) + 1 and not any("{" in c or "}" in c for c in chunks):
+                parts = [const(chunks[0])]
+                for a_, c in zip(args, chunks[1:]):
+                    parts += [a_, const(c)]
+                return self.concat(parts)
+        if f[0] == "attr" and f[2] == "join" and is_const(f[1]) and isinstance(f[1][2], str) and len(args) == 1 and not kws and args[0][0] in ("list", "tuple") and args[0][1]:
+            parts = []
+            for i, a_ in enumerate(args[0][1]):
+                parts += ([const(f[1][2])] if i else []) + [a_]
+            return self.concat(parts)
         tgt = self.resolve(f, e.func)
         if tgt is not None:
             fi, recv = tgt
@@ -899,6 +918,47 @@ class Interp:
                     self.env[nm] = saved[nm]
                 else:
                     self.env.pop(nm, None)
+
+
+def _as_text(x: Term) -> Term:
+    """a constant number formatted into a string is its text."""
+    if is_const(x) and isinstance(x[2], int) and not isinstance(x[2], bool):
+        return const(str(x[2]))
+    return x
+
+
+def _spec_text(spec: ast.AST | None) -> str:
+    """the format spec of an f-string slot: its literal text when it is a literal ("d", ".2f"), else its source."""
+    if spec is None:
+        return ""
+    if isinstance(spec, ast.JoinedStr) and all(isinstance(v, ast.Constant) and isinstance(v.value, str) for v in spec.values):
+        return "".join(v.value for v in spec.values)  # type: ignore[attr-defined]
+    return ast.unparse(spec)
+
+
+def _percent_pieces(fmt: str) -> list[tuple[str, str]] | None:
+    """a %-format string as [("text", s) | ("slot", directive)], None when a directive other than %s / %d / %% occurs."""
+    out: list[tuple[str, str]] = []
+    i = 0
+    buf = ""
+    while i < len(fmt):
+        ch = fmt[i]
+        if ch != "%":
+            buf += ch
+            i += 1
+            continue
+        nxt = fmt[i + 1 : i + 2]
+        if nxt == "%":
+            buf += "%"
+        elif nxt in ("s", "d"):
+            out.append(("text", buf))
+            out.append(("slot", nxt))
+            buf = ""
+        else:
+            return None
+        i += 2
+    out.append(("text", buf))
+    return out
 
 
 def _as_load(tg: ast.AST) -> ast.AST:
